@@ -155,6 +155,8 @@ def build(proto, desc, hint=None):
             if isinstance(desc, list) and len(desc) == 1 and not (alts[0] is float) \
                     and not _seq_hint(alts[0]) and alts[0] is not str:
                 inner = desc[0]
+            elif alts[0] is str and isinstance(desc, list) and len(desc) == 1 and isinstance(desc[0], list):
+                inner = desc[0]          # Optional[str]: [[utf-8 bytes]]
             return build(proto, inner, alts[0])
         # several alternatives: tagged record, enum name, literal or int
         if type(None) in args and isinstance(desc, list) and len(desc) == 1:
